@@ -363,20 +363,20 @@ def h_mf_encode(env, n, word_sets, canary=False):
             ints = [A.word_to_ints(w, n) for w in words]
             if canary:
                 ints = [[{1: 2, 2: 1}.get(v, v) for v in row] for row in ints]
-            env.check_same(np.asarray(m.integer).tolist(), ints, f"from_qubitop({words}).integer follows the documented table")
+            env.check_same(np.asarray(m.integer).tolist(), ints, f"from_qubitop(...).integer follows the documented table I=0 Z=1 X=2 Y=3 [case {words}]")
             env.check_same(np.asarray(m.binary).astype(int).tolist(), [A.ints_to_binary(r) for r in ints],
-                           f"from_qubitop({words}).binary = (x|z)")
+                           f"from_qubitop(...).binary = (x|z) of the documented table [case {words}]")
             env.check_same(m.n_qubits, n, "n_qubits")
-            env.check_vec_eq(list(m.factors), coefs, f"from_qubitop({words}).factors are the coefficients in term order")
+            env.check_vec_eq(list(m.factors), coefs, f"from_qubitop(...).factors are the coefficients in term order [case {words}]")
             x, y, _ = A.d_vectors(dict(m.qubitoperator.terms), dict(zip(words, coefs)))
             env.check_vec_eq(x, y, "qubitoperator property returns the same operator")
             fac = _nparr(env, coefs)
             m2 = MultiformOperator.from_integerop(np.array(ints, dtype=np.int8).reshape(len(words), n), fac)
             x, y, _ = A.d_vectors(dict(m2.terms), dict(zip([A.ints_to_word(r) for r in ints], coefs)))
-            env.check_vec_eq(x, y, f"from_integerop(integer of {words}) has the same terms")
+            env.check_vec_eq(x, y, f"from_integerop(integer array, factors) has the same terms [case {words}]")
             m3 = MultiformOperator.from_binaryop(np.array([A.ints_to_binary(r) for r in ints], dtype=bool).reshape(len(words), 2 * n), fac)
             x, y, _ = A.d_vectors(dict(m3.terms), dict(zip([A.ints_to_word(r) for r in ints], coefs)))
-            env.check_vec_eq(x, y, f"from_binaryop(binary of {words}) has the same terms")
+            env.check_vec_eq(x, y, f"from_binaryop(binary array, factors) has the same terms [case {words}]")
             env.check_same(np.asarray(m3.integer).tolist(), ints, "from_binaryop(...).integer")
 
 
@@ -401,9 +401,9 @@ def h_mf_collapse(env, n, rows, canary=False):
         for r, c in zip(np.asarray(uniq).tolist(), list(fac)):
             seen.append(tuple(r))
             got = A.d_add(got, {A.ints_to_word(r): c})
-        env.check_same(len(seen), len(set(seen)), f"collapse({rows}): returned words are unique")
+        env.check_same(len(seen), len(set(seen)), f"collapse: returned words are unique [case {rows}]")
         x, y, _ = A.d_vectors(got, ref)
-        env.check_vec_eq(x, y, f"collapse({rows}): factors are the sums over duplicate words")
+        env.check_vec_eq(x, y, f"collapse: factors are the sums over duplicate words [case {rows}]")
 
 
 def h_mf_mul(env, n, cases, real=False, canary=False):
@@ -430,13 +430,13 @@ def h_mf_mul(env, n, cases, real=False, canary=False):
                 continue
             ref = A.q_mul(dict(zip(wa, ca)), dict(zip(wb, cb))) if not canary else A.q_mul(dict(zip(wb, cb)), dict(zip(wa, ca)))
             x, y, _ = A.d_vectors(dict(mc.terms), ref)
-            env.check_vec_eq(x, y, "MultiformOperator.__mul__: terms equal the reference Pauli product", )
+            env.check_vec_eq(x, y, f"MultiformOperator.__mul__: terms equal the reference Pauli product [case {desc}]")
             # the array forms of the product describe the same operator as its terms
             got = {}
             for r, c in zip(mc.integer.tolist(), list(mc.factors)):
                 got = A.d_add(got, {A.ints_to_word(r): c})
             x, y, _ = A.d_vectors(got, ref)
-            env.check_vec_eq(x, y, "MultiformOperator.__mul__: integer/factors arrays equal the reference Pauli product")
+            env.check_vec_eq(x, y, f"MultiformOperator.__mul__: integer/factors arrays equal the reference Pauli product [case {desc}]")
             check_unchanged(env, sa, ma, "MultiformOperator.__mul__: left operand unchanged")
             check_unchanged(env, sb, mb, "MultiformOperator.__mul__: right operand unchanged")
 
@@ -457,11 +457,12 @@ def h_mf_commute(env, n, cases, canary=False):
         if not canary:
             assert all(ref_terms) == all(abs(v) < 1e-12 for v in comm.values()), "oracle inconsistency"
         got_terms = do_commute(ma, mb, term_resolved=True)
-        env.check_same([bool(v) for v in np.asarray(got_terms).tolist()], ref_terms,
-                       f"do_commute(term_resolved=True): entry i tells whether term i of A commutes with all terms of B [A={list(wa)} B={list(wb)}]")
-        got = do_commute(ma, mb)
-        env.check_same(bool(got), all(ref_terms),
-                       f"do_commute (global): True iff every term of A commutes with every term of B [A={list(wa)} B={list(wb)}]")
+        got_terms = [bool(v) for v in np.asarray(got_terms).tolist()]
+        env.check_true(got_terms == ref_terms, "do_commute(term_resolved=True): entry i is True iff term i of A commutes with every term of B",
+                       f"A={list(wa)} B={list(wb)}: got {got_terms}, expected {ref_terms}")
+        got = bool(do_commute(ma, mb))
+        env.check_true(got == all(ref_terms), "do_commute (global): True iff every term of A commutes with every term of B",
+                       f"A={list(wa)} B={list(wb)}: got {got}, expected {all(ref_terms)}")
 
 
 # ------------------------------------------------------------------ enumeration
